@@ -54,7 +54,7 @@ set_option linter.unusedVariables false in
 reversal sequences that the two passes are fed.  (`SignPreserving` is not needed for one point: the
 hypothesis of the given statement is kept but not used.) -/
 theorem hcm_model_eq_guideline (law : Law) (hl : SignPreserving law) (s : List Int) :
-    let st := twoPass law (C04.one s)
+    let st := twoPassR law (C04.one s)
     st.recs.map toG = (Spec.guideline law (fedOf st 1) (fedOf st 2)).recs ∧
     st.strainValues = (Spec.guideline law (fedOf st 1) (fedOf st 2)).strains := by
   intro st
@@ -66,8 +66,8 @@ theorem hcm_model_eq_guideline (law : Law) (hl : SignPreserving law) (s : List I
 /-- Points with proportional load histories: every point gets what it gets alone. -/
 theorem hcm_batch_eq_single (law : Law) (hl : SignPreserving law) (L : List Int) (cs : List Int)
     (hc : ∀ c ∈ cs, 0 < c) (k : Nat) (hk : k < cs.length) :
-    ((twoPass law (L.map fun l => cs.map (· * l))).recs.map (proj k)) =
-      ((twoPass law (L.map fun l => [cs.getD k 1 * l])).recs.map (proj 0)) :=
+    ((twoPassR law (L.map fun l => cs.map (· * l))).recs.map (proj k)) =
+      ((twoPassR law (L.map fun l => [cs.getD k 1 * l])).recs.map (proj 0)) :=
   C05L.twoPass_sim law hl cs hc k hk L
 
 /-! ### non-vacuity -/
@@ -78,21 +78,21 @@ theorem signPreserving_lawLinear : SignPreserving lawLinear := by
   simp only [lawLinear]
   refine ⟨fun h => ⟨by omega, by omega⟩, fun h => ⟨by omega, by omega⟩, fun h => ⟨by omega, by omega⟩⟩
 
-example : ((twoPass lawLinear ([0, 100, -200, 100, -100, 200].map fun l => [1, 3, 2].map (· * l))).recs.map (proj 1)) =
-    ((twoPass lawLinear ([0, 100, -200, 100, -100, 200].map fun l => [[1, 3, 2].getD 1 1 * l])).recs.map (proj 0)) :=
+example : ((twoPassR lawLinear ([0, 100, -200, 100, -100, 200].map fun l => [1, 3, 2].map (· * l))).recs.map (proj 1)) =
+    ((twoPassR lawLinear ([0, 100, -200, 100, -100, 200].map fun l => [[1, 3, 2].getD 1 1 * l])).recs.map (proj 0)) :=
   hcm_batch_eq_single lawLinear signPreserving_lawLinear _ [1, 3, 2] (by decide) 1 (by decide)
 
-example : (twoPass lawLinear ([0, 100, -200, 100, -100, 200].map fun l => [1, 3, 2].map (· * l))).recs.length = 5 := by
+example : (twoPassR lawLinear ([0, 100, -200, 100, -100, 200].map fun l => [1, 3, 2].map (· * l))).recs.length = 5 := by
   decide +kernel
 
 example :
-    let st := twoPass lawLinear (C04.one [0, 100, -200, 100, -100, 200])
+    let st := twoPassR lawLinear (C04.one [0, 100, -200, 100, -100, 200])
     st.recs.map toG = (Spec.guideline lawLinear (fedOf st 1) (fedOf st 2)).recs ∧
     st.strainValues = (Spec.guideline lawLinear (fedOf st 1) (fedOf st 2)).strains :=
   hcm_model_eq_guideline lawLinear signPreserving_lawLinear _
 
-example : (twoPass lawLinear (C04.one [0, 100, -200, 100, -100, 200])).recs.length = 5 ∧
-    fedOf (twoPass lawLinear (C04.one [0, 100, -200, 100, -100, 200])) 2 = [0, 100, -200, 100, -100, 200] := by
+example : (twoPassR lawLinear (C04.one [0, 100, -200, 100, -100, 200])).recs.length = 5 ∧
+    fedOf (twoPassR lawLinear (C04.one [0, 100, -200, 100, -100, 200])) 2 = [0, 100, -200, 100, -100, 200] := by
   decide +kernel
 
 end C05
